@@ -1,10 +1,10 @@
-pub const MAX_ALLOWED_HSS_LEVELS: usize = 6;
+pub const MAX_ALLOWED_HSS_LEVELS: usize = 2;
 
-pub const MAX_TREE_HEIGHT: usize = 25;
+pub const MAX_TREE_HEIGHT: usize = 20;
 
-pub const TREE_HEIGHTS: [usize; 6] = [10, 25, 10, 15, 10, 25];
+pub const TREE_HEIGHTS: [usize; 2] = [20, 10];
 
-pub const MIN_WINTERNITZ_PARAMETER: usize = 2;
+pub const MIN_WINTERNITZ_PARAMETER: usize = 1;
 
-pub const WINTERNITZ_PARAMETERS: [usize; 6] = [8, 4, 8, 2, 8, 8];
+pub const WINTERNITZ_PARAMETERS: [usize; 2] = [1, 4];
 
